@@ -32,7 +32,7 @@
    NOT proved: that the frontend's output always satisfies np_ok (C10/C11/C12 are the frontend
    properties; np_ok is evaluated per query), and typing conditions under which the operators
    themselves stay in their domain (C07). *)
-From TF Require Import Exec Sem Sim SimRec SimComp ExecNoPanic Run WfIR NoPanic NoPanicOps NoPanicEdges NoPanicFold NoPanicProofs C01.
+From TF Require Import Exec Sem Sim SimRec SimComp ExecNoPanic Run WfIR NoPanic NoPanicOps NoPanicEdges NoPanicFold NoPanicProofs WfNoPanic C01.
 Local Open Scope string_scope.
 
 (* The @recurse machinery (suspended-vertices stack, piggy-backed contexts, implicit-coercion gate):
@@ -254,3 +254,60 @@ Example C09_np_ok_rejects_forward_tag :
   end.
 Proof. vm_compute. split; reflexivity. Qed.
 Print Assumptions C09_np_ok_rejects_forward_tag.
+
+(* ---- np_ok FOLLOWS from the frontend invariants (WfNoPanic.v) ----
+   wf_np q = wf_ir q (the C11 validator) && np_extra q, where np_extra states the two facts np_ok
+   needs that wf_ir does not contain: (1) a filter has no right-hand operand iff its operation is
+   unary (in Rust: the shape of the Operation enum; IR.v flattens it); (2) vertices are numbered
+   depth-first: in eid order every edge / fold starts at the current vertex or one of its ancestors
+   (wf_ir only has from < to).  Both are evaluated, with wf_ir, on every IR the real frontend produces
+   by ./check C11 (translation validation).
+   args_fit args q' is everything about the ARGUMENTS: every variable recorded in the query has a
+   value, and every fold-count filter whose operand is a variable gets an integer (a list of integers
+   for one_of / not_one_of) — what argument validation accepts for the recorded Int! / [Int!]! types. *)
+Theorem C09_wf_np_ok :
+  forall args q q', WfNoPanic.wf_np q = true -> lower_query q = Ok q' -> WfNoPanic.args_fit args q' = true ->
+    np_ok args q' = true.
+Proof. exact WfNoPanic.wf_np_ok. Qed.
+Print Assumptions C09_wf_np_ok.
+
+(* executing any query that meets the frontend invariants, with fitting arguments, on any
+   contract-abiding data source: the only panics are those of the filter operators *)
+Theorem C09_wf_np_engine_panics_only_in_operators :
+  forall re g args q q' site,
+    ty_indep g -> WfNoPanic.wf_np q = true -> lower_query q = Ok q' -> WfNoPanic.args_fit args q' = true ->
+    interpret re g args q' = Panic site -> operator_site site = true.
+Proof. exact WfNoPanic.wf_np_engine_panics_only_in_operators. Qed.
+Print Assumptions C09_wf_np_engine_panics_only_in_operators.
+
+(* the premises are met by real frontend IRs with folds: C01's agreement witness (nested @fold, count
+   filter against a tag, @optional, @recurse) and the truncating fold-count witness *)
+Example C09_wf_np_premises_satisfiable :
+  WfNoPanic.wf_np aw_rq = true /\ WfNoPanic.wf_np tr_rq = true /\
+  (match lower_query aw_rq with Ok q => WfNoPanic.args_fit aw_args q = true | Panic _ => False end) /\
+  (match lower_query tr_rq with Ok q => WfNoPanic.args_fit tr_args q = true | Panic _ => False end).
+Proof. vm_compute. repeat split. Qed.
+Print Assumptions C09_wf_np_premises_satisfiable.
+
+(* np_extra is not implied by wf_ir: a breadth-first numbering (1 -> 2, 1 -> 3, then 2 -> 4) passes
+   wf_ir, is not depth-first, and np_ok refuses it when the late edge is a @recurse edge; a binary
+   filter without operand passes wf_ir and is refused by np_extra and np_ok *)
+Definition bfs_rq : raw_query :=
+  mkRQ "Item" []
+       (RComp 1%N [mkV 1%N "Item" None []; mkV 2%N "Item" None []; mkV 3%N "Item" None []; mkV 4%N "Item" None []]
+              [mkE 1%N 1%N 2%N "next" [] false None; mkE 2%N 1%N 3%N "next" [] false None;
+               mkE 3%N 2%N 4%N "next" [] false (Some (mkRec 1%N None))]
+              [] [("o", mkCF 4%N "id" (mkTy "Int" 1%N))])
+       [].
+Definition noarg_rq : raw_query :=
+  mkRQ "Item" []
+       (RComp 1%N [mkV 1%N "Item" None [mkVF Equals "id" (mkTy "Int" 1%N) None]] [] []
+              [("o", mkCF 1%N "id" (mkTy "Int" 1%N))])
+       [].
+Example C09_np_extra_is_needed :
+  WfIR.wf_ir bfs_rq = true /\ WfNoPanic.wf_np bfs_rq = false /\
+  (match lower_query bfs_rq with Ok q => np_ok [] q = false | Panic _ => False end) /\
+  WfIR.wf_ir noarg_rq = true /\ WfNoPanic.wf_np noarg_rq = false /\
+  (match lower_query noarg_rq with Ok q => np_ok [] q = false | Panic _ => False end).
+Proof. vm_compute. repeat split. Qed.
+Print Assumptions C09_np_extra_is_needed.
